@@ -8,7 +8,9 @@
     [never_fails] = the solver reports success (an integration failure stops the protocol early:
     modelled, exercised by the correspondence, not part of the property). *)
 From Coq Require Import QArith List Bool NArith.
-From Sim Require Import Integrator Simulator Protocol SimExec GenSimFacts SimProofs ProtocolProofs SteadyProofs Variants SwitchProofs.
+From Coq Require Import Permutation.
+From Sim Require Import Integrator Simulator Protocol ProtocolTable SimExec TableExec GenSimFacts SimProofs ProtocolProofs SteadyProofs Variants
+  SwitchProofs TableProofs.
 Import ListNotations.
 Open Scope Q_scope.
 
@@ -331,3 +333,81 @@ Theorem C14_close_start_refuted :
   /\ xptc_by np_isclose late_fresh early_steps early_grid false = xptc_by Qeq_bool late_fresh early_steps early_grid false.
 Proof. exact close_start_refuted. Qed.
 Print Assumptions C14_close_start_refuted.
+
+(** * The protocol TABLE (closing pass for seeded change C14-8)
+
+    A step's values are a Python dict: a mapping written in SOME key order ([dict] = association list with
+    distinct names).  make_protocol puts them into a frame with one column per parameter NAME; the loops hand
+    [row.to_dict()] to [update_parameters].  [gen_protocol_rows] (REGENERATED from make_protocol's body) says how a
+    step's values get into its row: [RowsByName] (shipped: the frame constructor aligns the inner dicts on their
+    keys) / [RowsPositional] (the values in the order WRITTEN, under the first step's key order) / [RowsUnknown]. *)
+Theorem C14_protocol_rows_pinned : gen_protocol_rows = RowsByName.
+Proof. vm_compute. reflexivity. Qed.
+Print Assumptions C14_protocol_rows_pinned.
+
+(** whatever key order each step is written in, what the loops read back from row i is step i's duration and
+    step i's MAPPING: every name looks up the same value (names not mentioned: in neither) *)
+Theorem C14_table_row_is_the_step :
+  forall (steps steps' : list (Q * dict)),
+    table_steps gen_protocol_rows steps = Some steps' ->
+    Forall2 (fun a b => fst b = fst a /\ NoDup (keys (snd a)) /\ NoDup (keys (snd b))
+                        /\ forall n, lookup n (snd b) = lookup n (snd a)) steps steps'.
+Proof. exact (table_row_is_the_step_of gen_protocol_rows C14_protocol_rows_pinned). Qed.
+Print Assumptions C14_table_row_is_the_step.
+
+(** ... and every key order is accepted: steps naming the first step's parameters in ANY order build a table *)
+Theorem C14_table_accepts_any_key_order :
+  forall (d0 : Q) (u0 : dict) (rest : list (Q * dict)),
+    NoDup (keys u0) -> Forall (fun s => Permutation (keys u0) (keys (snd s))) rest ->
+    exists steps', table_steps gen_protocol_rows ((d0, u0) :: rest) = Some steps'.
+Proof. exact (table_accepts_any_key_order_of gen_protocol_rows C14_protocol_rows_pinned). Qed.
+Print Assumptions C14_table_accepts_any_key_order.
+
+(** [Model.update_parameters(dict)] of the executable instance depends on the mapping only, not on the key order *)
+Theorem C14_update_depends_on_mapping_only :
+  forall (u u' : dict) (p : list Q),
+    NoDup (keys u) -> NoDup (keys u') -> (forall n, lookup n u' = lookup n u) ->
+    apply_updates p u' = apply_updates p u.
+Proof. exact apply_updates_mapping. Qed.
+Print Assumptions C14_update_depends_on_mapping_only.
+
+(** hence a whole history whose protocols go THROUGH THE TABLE (each step written in its own key order) is the
+    history of the step dicts themselves: states and outcomes after every operation are those of the model that all
+    the theorems above are about (protocol form and time-course form) *)
+Theorem C14_protocol_through_table :
+  forall (ops : list xop) (s : xsim) (tr : list (xsim * outcome)),
+    xtrace_t gen_protocol_rows gen_sim_facts s ops = Some tr -> tr = xtrace gen_sim_facts s ops.
+Proof. exact (fun ops s tr => trace_through_table_of gen_protocol_rows C14_protocol_rows_pinned gen_sim_facts ops s tr). Qed.
+Print Assumptions C14_protocol_through_table.
+
+(** positional rows (seeded change C14-8) are harmless exactly on protocols whose steps are all written in the
+    first step's key order -- the only kind the repository's own tests contain ... *)
+Theorem C14_positional_rows_same_order_partial :
+  forall (d0 : Q) (u0 : dict) (rest : list (Q * dict)),
+    NoDup (keys u0) -> Forall (fun s => keys (snd s) = keys u0) rest ->
+    table_steps RowsPositional ((d0, u0) :: rest) = Some ((d0, u0) :: rest).
+Proof. exact positional_same_order_is_identity. Qed.
+Print Assumptions C14_positional_rows_same_order_partial.
+
+(** ... and wrong otherwise: regression witness [(1, {k: 2, c: 1/2}); (1/2, {c: 3, k: 1/4})] on x' = k*y, y' = c
+    (the seeded change's demo with dyadic numbers): the second step's segment records k = 3, c = 1/4 instead of
+    k = 1/4, c = 3, in both protocol forms, and the state reached differs *)
+Theorem C14_positional_rows_refuted :
+  table_steps RowsByName w_steps = Some [(1, [(0%nat, 2); (1%nat, 1 # 2)]); (1 # 2, [(0%nat, 1 # 4); (1%nat, 3)])]
+  /\ table_steps RowsPositional w_steps = Some [(1, [(0%nat, 2); (1%nat, 1 # 2)]); (1 # 2, [(0%nat, 3); (1%nat, 1 # 4)])]
+  /\ option_map recorded_pars (xrun_t RowsByName w_fx w_new [OProt w_steps 1%nat]) = Some [[2; 1 # 2; 0; 0]; [1 # 4; 3; 0; 0]]
+  /\ option_map recorded_pars (xrun_t RowsPositional w_fx w_new [OProt w_steps 1%nat]) = Some [[2; 1 # 2; 0; 0]; [3; 1 # 4; 0; 0]]
+  /\ option_map recorded_pars (xrun_t RowsPositional w_fx w_new [OProtTc w_steps [1 # 2; 5 # 4] false])
+     = Some [[2; 1 # 2; 0; 0]; [3; 1 # 4; 0; 0]].
+Proof. exact (conj table_witness_by_name (conj table_witness_positional
+         (conj (proj1 positional_rows_witness) (conj (proj1 (proj2 positional_rows_witness)) (proj1 (proj2 (proj2 positional_rows_witness))))))). Qed.
+Print Assumptions C14_positional_rows_refuted.
+
+(** non-vacuity: the witness protocol (second step written the other way round) is accepted by the shipped table,
+    meets the hypotheses of [C14_table_accepts_any_key_order], and [w_fx] is the regenerated fact vector *)
+Example C14_table_nonvacuous :
+  NoDup (keys [(0%nat, 2); (1%nat, 1 # 2)])
+  /\ Forall (fun s : Q * dict => Permutation (keys [(0%nat, 2); (1%nat, 1 # 2)]) (keys (snd s))) [(1 # 2, [(1%nat, 3); (0%nat, 1 # 4)])]
+  /\ table_steps gen_protocol_rows w_steps <> None
+  /\ w_fx = gen_sim_facts.
+Proof. exact table_nonvacuous. Qed.
